@@ -36,13 +36,13 @@ def declare(S: Spec):
            "ite(seg.memory_gb is not None, val(seg.memory_gb),"
            " ite(i < IoTicks(c, seg), rmul(i + 1, c.tick_length_secs) * 20, seg.storage_read_gb))")
 
-    S.fn(f"{MP}:Segment.get_cpu_time",
+    S.fn(f"{MP}:Segment.get_cpu_time", owners=["C05"],
          params={"num_cpus": REAL}, returns=REAL,
          requires=["SegOK(self)", "num_cpus >= 1"],
          ensures=[("law", "result == CpuTime(self, num_cpus)"), ("nonneg", "result >= 0")],
          modifies=[])
 
-    S.fn(f"{MC}:Container._segment_ticks",
+    S.fn(f"{MC}:Container._segment_ticks", owners=["C05"],
          params={"seg": Ref("Segment")}, returns=Tuple(INT, INT),
          requires=["self.assignment is not None", "self.assignment.cpu >= 1", "SegOK(seg)",
                    "self.ticks_per_second >= 1", "self.tick_length_secs == rdiv(1.0, self.ticks_per_second)"],
@@ -83,25 +83,25 @@ def declare2(S: Spec):
                 "implies(last_busy_seg_idx is not None, 0 <= val(last_busy_seg_idx) and val(last_busy_seg_idx) < {k}"
                 " and SegTicks(self, segments[val(last_busy_seg_idx)]) > 0"
                 " and all(SegTicks(self, segments[j]) == 0 for j in range(val(last_busy_seg_idx) + 1, {k})))"]
-    STEP = [("I1", "GI1()"), ("usage-delta", "self.pool.consumed_ram_gb - self._current_memory == old(self.pool.consumed_ram_gb - self._current_memory)"),
-            ("others-kept", "all(state(o) == old(state(o)) for o in every('Operator') if o not in self.assignment.ops)"),
-            ("one-op-per-tick", "old(self._current_op_idx) <= self._current_op_idx and self._current_op_idx <= old(self._current_op_idx) + 1"),
-            ("live-shape", "Runnable(self) and Prefix(self, self._current_op_idx) and Suffix(self, self._current_op_idx + 1)"
+    STEP = [("I1", "C02| GI1()"), ("usage-delta", "C04,C05| self.pool.consumed_ram_gb - self._current_memory == old(self.pool.consumed_ram_gb - self._current_memory)"),
+            ("others-kept", "C02,C05| all(state(o) == old(state(o)) for o in every('Operator') if o not in self.assignment.ops)"),
+            ("one-op-per-tick", "C05| old(self._current_op_idx) <= self._current_op_idx and self._current_op_idx <= old(self._current_op_idx) + 1"),
+            ("live-shape", "C01,C02,C05| Runnable(self) and Prefix(self, self._current_op_idx) and Suffix(self, self._current_op_idx + 1)"
                            " and implies(self._current_op_idx < len(self.assignment.ops),"
                            "             state(self.assignment.ops[self._current_op_idx]) in (OperatorState.ASSIGNED, OperatorState.RUNNING))"),
-            ("success-iff-all-done", "self._completed == (self._current_op_idx == len(self.assignment.ops))"),
-            ("success-clean", "implies(self._completed, self.error is None and self._current_memory == 0)"),
+            ("success-iff-all-done", "C05,C09| self._completed == (self._current_op_idx == len(self.assignment.ops))"),
+            ("success-clean", "C04,C09| implies(self._completed, self.error is None and self._current_memory == 0)"),
             ("suspendable-only-at-boundary",
-             "implies(self._can_suspend and self._current_memory <= self.assignment.ram,"
+             "C10| implies(self._can_suspend and self._current_memory <= self.assignment.ram,"
              " self._current_op_idx >= 1 and self._current_op_idx < len(self.assignment.ops)"
              " and state(self.assignment.ops[self._current_op_idx]) == OperatorState.ASSIGNED)"),
             ("frozen-or-within-limit", "self._current_memory > self.assignment.ram or self._current_memory <= self.assignment.ram")]
 
-    S.fn(f"{MC}:Container._tick_generator",
+    S.fn(f"{MC}:Container._tick_generator", owners=["C05"],
          requires=["Runnable(self)", "GI1()", "self._current_op_idx == 0", "not self._completed", "Suffix(self, 0)",
                    "self._current_memory == 0", "not self._can_suspend", "self.error is None"],
-         raises={"AssertionError": ["GI1()", "state(op) == OperatorState.ASSIGNED",
-                                    "not Admissible(status(op), op, OperatorState.RUNNING)"]},
+         raises={"AssertionError": ["GI1()", "C01,C05| state(op) == OperatorState.ASSIGNED",
+                                    "C01,C05| not Admissible(status(op), op, OperatorState.RUNNING)"]},
          modifies=["(values(o.pipeline._runtime_status.operator_states) for o in self.assignment.ops)",
                    "(values(o.pipeline._runtime_status.state_counts) for o in self.assignment.ops)",
                    "self._current_memory", "self.pool.consumed_ram_gb", "self._completed", "self.error",
@@ -155,11 +155,16 @@ def declare3(S: Spec):
            " and c._completed == (c._current_op_idx == len(c.assignment.ops))"
            " and implies(c._current_op_idx < len(c.assignment.ops),"
            "             state(c.assignment.ops[c._current_op_idx]) in (OperatorState.ASSIGNED, OperatorState.RUNNING))")
+    from pyvc.spec import split_tags
+
+    def retag(e, f):
+        tags, body = split_tags(e)
+        return (",".join(tags) + "| " if tags else "") + f(body)
     step = g.gen["step_post"]
     S.fn("next_of:TickGen",
          params={}, returns=None,
          requires=["self is not None and self.owner is not None", "LiveShape(self.owner)", "GI1()", "not self.owner._completed"],
-         ensures=[(lbl, own(e)) for lbl, e in step],
+         ensures=[(lbl, retag(e, own)) for lbl, e in step],
          raises={"AssertionError": [own("all(state(o) == old(state(o)) for o in every('Operator') if o not in self.assignment.ops)"), "GI1()"]},
          modifies=[own(m) for m in g.modifies],
          note="derived contract: justified by the yield-step / exhaust obligations of Container._tick_generator "
@@ -167,18 +172,18 @@ def declare3(S: Spec):
               "finishes without completing the container) under the rely condition stated there")
     S.fns["next_of:TickGen"].trusted = True
 
-    S.fn(f"{MC}:Container.tick",
+    S.fn(f"{MC}:Container.tick", owners=["C05"],
          requires=["self._tick_iter is not None and self._tick_iter.owner is self", "LiveShape(self)", "GI1()"],
          ensures=[("idle-when-done", "implies(old(self._completed), self._ticks_elapsed == old(self._ticks_elapsed) and self._current_memory == old(self._current_memory)"
                                      " and self.pool.consumed_ram_gb == old(self.pool.consumed_ram_gb) and self._current_op_idx == old(self._current_op_idx)"
                                      " and all(state(o) == old(state(o)) for o in every('Operator')))"),
                   ("one-tick", "implies(not old(self._completed), self._ticks_elapsed == old(self._ticks_elapsed) + 1)")]
-                 + [(lbl, f"implies(not old(self._completed), {e})") for lbl, e in step]
+                 + [(lbl, retag(e, lambda b: f"implies(not old(self._completed), {b})")) for lbl, e in step]
                  + [("shape-kept", "LiveShape(self)"), ("I1-kept", "GI1()")],
          raises={"AssertionError": ["all(state(o) == old(state(o)) for o in every('Operator') if o not in self.assignment.ops)", "GI1()"]},
          modifies=g.modifies + ["self._ticks_elapsed"])
 
-    S.fn(f"{MC}:Container.__init__",
+    S.fn(f"{MC}:Container.__init__", owners=["C09", "C05"],
          params={"assignment": Ref("Assignment"), "pool": Ref("ResourcePool"), "ticks_per_second": INT},
          requires=["GI1()", "assignment is not None and pool is not None and ticks_per_second >= 1",
                    "assignment.ops is not None and nodup(assignment.ops) and len(assignment.ops) >= 1",
